@@ -45,14 +45,14 @@ func sortedKeysTree(m map[string]*tv.Value) []string {
 var closedChan = func() chan struct{} { c := make(chan struct{}); close(c); return c }()
 
 type PollCtx struct {
-	polls     atomic.Int64
-	cancelAt  int64
-	pollCap   int64
-	cancelled atomic.Bool
+	polls      atomic.Int64
+	cancelAt   int64
+	pollCap    int64
+	cancelled  atomic.Bool
 	cancelPoll atomic.Int64 // poll number at which cancellation became visible
-	open      chan struct{}
-	base      int64
-	OnCancel  func()
+	open       chan struct{}
+	base       int64
+	OnCancel   func()
 }
 
 func NewPollCtx(cancelAt, pollCap int64) *PollCtx {
@@ -104,17 +104,18 @@ func (c *PollCtx) Arm(cancelAt, pollCap int64) {
 // Recording host
 
 type Recorder struct {
-	mu         sync.Mutex
-	Writes     []string
-	Triggers   []sb.TriggerCall
-	Singletons []string
-	TypeErrors []string
+	mu             sync.Mutex
+	Writes         []string
+	Triggers       []sb.TriggerCall
+	Singletons     []string
+	TypeErrors     []string
 	writesAtCancel int
-	closed     bool
-	Late       int
-	Yield      bool
-	CancelAtWrite int    // cancel when the n-th write arrives (0 = never)
-	CancelFn      func() // what "cancel" means (set by the runner)
+	cancelTime     time.Time
+	closed         bool
+	Late           int
+	Yield          bool
+	CancelAtWrite  int    // cancel when the n-th write arrives (0 = never)
+	CancelFn       func() // what "cancel" means (set by the runner)
 }
 
 func (r *Recorder) write(s string) {
